@@ -14,7 +14,7 @@
                     (see its definition: cut before GO / fault before finally / fault in finally
                     with (i) other restores still run, (ii) nothing diverted, (iii) restartable) *)
 From Coq Require Import String List NArith ZArith Ascii Bool Arith.
-From SV Require Import Lib.Bytes Model.FwLife Proofs.FwLife_lemmas.
+From SV Require Import Lib.Bytes Model.FwLife Model.FwLifeSpec Proofs.FwLife_lemmas Proofs.FwLife_general.
 Import ListNotations.
 
 (* ================================================================== *)
@@ -62,23 +62,99 @@ Proof. exact chain_in_listing_spec. Qed.
 Print Assumptions c04_chain_exists_exact.
 
 (* ================================================================== *)
-(* Full statement of "undone on every exit path" — NOT proved in this     *)
-(* generality (gap: the invariant - own hooks occur at most once, chain   *)
-(* absent implies no own hook - has not been carried through set-up for   *)
-(* arbitrary initial states).  Exclusions that are necessary: the nat      *)
-(* method with --user/--group (finding F41), see c04_nat_owner_refuted.   *)
+(* "Undone on every exit path" — GENERAL theorems (Proofs/FwLife_general.v). *)
+(* For EVERY configuration of the method (every port, every plan body),   *)
+(* EVERY initial kernel state s0 that is well formed (chain names without *)
+(* blanks, built-in OUTPUT/PREROUTING present: kst_wf) and holds nothing   *)
+(* named for the session's ports (erase c s0 = s0; foreign rules, foreign  *)
+(* chains, other sshuttle instances on other ports are all allowed),       *)
+(* EVERY index k of the one external command that fails and EVERY cut of   *)
+(* the dialogue:  sess_ok c s0 k cut = true, i.e.                          *)
+(*  - cut before GO: no command at all, state untouched;                   *)
+(*  - the fault (if any) before the finally block: final state = s0;       *)
+(*  - the fault inside the finally block: (i) both families' restores and  *)
+(*    the hosts restore still ran, (ii) nothing can be diverted unless the *)
+(*    failing command is the chain listing (F42) / nft's `delete table`,   *)
+(*    (iii) a later fault-free session on the same ports reaches STARTED   *)
+(*    and ends in s0.                                                      *)
 
+(* nat (methods/nat.py) without --user/--group *)
+Theorem c04_nat_all_exits : forall c,
+  c_method c = MNat -> c_owner c = None -> c_udp c = false -> cfg_wf c = true ->
+  (forall f, nospace (fc_port (fcfg c f)) = true) ->
+  forall s0 k cut, erase c s0 = s0 -> kst_wf s0 = true -> sess_ok c s0 k cut = true.
+Proof. exact nat_all_exits. Qed.
+Print Assumptions c04_nat_all_exits.
+
+(* tproxy (methods/tproxy.py, repaired restore_firewall = F9 fixed), with or without UDP.
+   tp_body_ordered: no rule of the tproxy/divert chain jumps to the mark chain and no rule of the
+   divert chain jumps to the tproxy chain — restore deletes the chains in the order mark, tproxy,
+   divert, so this is what `-X` needs (true of every rule tproxy.py generates). *)
+Theorem c04_tproxy_all_exits : forall c,
+  c_method c = MTproxy -> c_repaired c = true -> cfg_wf c = true ->
+  (forall f, nospace (fc_port (fcfg c f)) = true) ->
+  (forall f, fc_on (fcfg c f) = true -> tp_body_ordered (fc_port (fcfg c f)) (fc_body (fcfg c f)) = true) ->
+  forall s0 k cut, erase c s0 = s0 -> kst_wf s0 = true -> sess_ok c s0 k cut = true.
+Proof. exact tproxy_all_exits. Qed.
+Print Assumptions c04_tproxy_all_exits.
+
+(* nft (methods/nft.py).  nft_body_ok: every body rule names one of the chains nft.py creates. *)
+Theorem c04_nft_all_exits : forall c,
+  c_method c = MNft -> c_udp c = false -> cfg_wf c = true ->
+  (forall f, fc_on (fcfg c f) = true -> nft_body_ok f (fc_port (fcfg c f)) (fc_body (fcfg c f)) = true) ->
+  forall s0 k cut, erase c s0 = s0 -> sess_ok c s0 k cut = true.
+Proof. exact nft_all_exits. Qed.
+Print Assumptions c04_nft_all_exits.
+
+(* non-vacuity: the sample plans and kernels satisfy every hypothesis ... *)
+Example c04_general_hyps_satisfiable :
+  (cfg_wf cfg_nat = true /\ cfg_wf cfg_tproxy = true /\ cfg_wf cfg_nft = true) /\
+  (kst_wf ex_state = true /\ kst_wf k_empty = true) /\
+  (erase cfg_nat ex_state = ex_state /\ erase cfg_tproxy ex_state = ex_state /\ erase cfg_nft ex_state = ex_state) /\
+  nospace P1230 = true /\
+  tp_body_ordered P1230 (tp_body P1230) = true /\
+  nft_body_ok V6 P1230 (nft_body V6 P1230) = true /\ nft_body_ok V4 P1230 (nft_body V4 P1230) = true.
+Proof. vm_compute. repeat split. Qed.
+
+(* ... so for them every k and every cut is covered, without bound *)
+Corollary c04_samples_all_exits : forall k cut,
+  sess_ok cfg_nat ex_state k cut = true /\ sess_ok cfg_tproxy ex_state k cut = true /\
+  sess_ok cfg_nft ex_state k cut = true.
+Proof.
+  intros k cut.
+  destruct c04_general_hyps_satisfiable as ((W1 & W2 & W3) & (K1 & K2) & (E1 & E2 & E3) & Np & Ord & B6 & B4).
+  split; [|split].
+  - apply c04_nat_all_exits;
+      [reflexivity | reflexivity | reflexivity | exact W1 | intros [|]; exact Np | exact E1 | exact K1].
+  - apply c04_tproxy_all_exits;
+      [reflexivity | reflexivity | exact W2 | intros [|]; exact Np | intros [|] _; exact Ord | exact E2 | exact K1].
+  - apply c04_nft_all_exits;
+      [reflexivity | reflexivity | exact W3 | intros [|] _; [exact B6 | exact B4] | exact E3].
+Qed.
+Print Assumptions c04_samples_all_exits.
+
+(* What is NOT proved in general (kept as a statement only):
+   (a) nat with --user/--group (the owner MARK rule in the mangle table): every exit EXCEPT a
+       failing tear-down `-t mangle -D OUTPUT ... MARK`, which is finding F41 (c04_nat_owner_refuted);
+       covered only by the finite sweep c04_nat_owner_all_exits_partial below;
+   (b) pf (c04_pf_identity_full further down).
+   The iptables/nft model has no other gap: the hypotheses above (well-formed kernel, body rules
+   in own chains, tproxy's chain order) are necessary for the statement as it stands. *)
+Definition is_mark_delete (x : cmd) : bool :=
+  match x with Ipt _ TMangle (IDelete _ _) => true | _ => false end.
 Definition c04_all_exits_full : Prop :=
   forall c s0 k cut,
-    not_pf c = true -> cfg_wf c = true -> c_repaired c = true -> c_owner c = None -> c_udp c = false ->
-    erase c s0 = s0 ->                       (* s0 has no object named for the session's ports *)
+    c_method c = MNat -> c_owner c <> None -> c_udp c = false -> cfg_wf c = true ->
+    (forall f, nospace (fc_port (fcfg c f)) = true) ->
+    erase c s0 = s0 -> kst_wf s0 = true ->
+    (let r := session c cut (fault_at k) s0 in
+     Nat.leb (r_fin_at r) k && match nth_cmd k (r_events r) with Some x => is_mark_delete x | None => false end = false) ->
     sess_ok c s0 k cut = true.
 
-(* Proved part: all exits (every failing command index, every cut) for the sample plans of each
-   method on port 1230, IPv6+IPv4, started (a) from a kernel with foreign rules, a foreign chain
-   and a complete second instance on port 12300 in every table, (b) from an empty kernel.
-   Bounds: k ranges over ALL command indices of the session (and beyond = no fault), cut over
-   ALL dialogue positions. *)
+(* The earlier finite sweeps (sample plans on port 1230, IPv6+IPv4, from a kernel with foreign
+   rules, a foreign chain and a complete second instance on port 12300, and from an empty kernel;
+   k over all command indices, cut over all dialogue positions) are kept; they are now instances of
+   the general theorems. *)
 Theorem c04_nat_all_exits_partial : forall k cut, k < 32 -> cut <= 10 ->
   sess_ok cfg_nat ex_state k cut = true /\ sess_ok cfg_nat k_empty k cut = true.
 Proof.
